@@ -477,6 +477,7 @@ func CheckMain(args []string) int {
 				"harnesses":                     hsl,
 				"lua_checks":                    lr.Summaries,
 				"lua_bounds":                    lr.Bounds,
+				"lua_explanation":               luaExplanation(lr),
 				"functions_encoded":             sortedKeys(funcs),
 				"solver_queries":                solverQ,
 				"solver_seconds":                solverS,
